@@ -226,8 +226,108 @@ def check(s):
     # Gymnasium simulator on every step
     from .C01 import check_step
     check_step(s, lambda i: "C13.8")
+    check_gymnax(s)
     for r_, n in (("C13.1", 95), ("C13.2", 14), ("C13.3", 11), ("C13.4", 4), ("C13.5", 15), ("C13.6", 15), ("C13.7", 14), ("C13.8", 10)):
         s.floor(r_, n)
+
+
+def check_gymnax(s, rule="C13.9"):
+    """The gymnax adapters reproduce the trajectory of what they adapt. GymnaxToLeraxEnv caches what gymnax's fused step returns in
+    its state and hands each cached signal out from the right state (the reward and info of a transition live in the SUCCESSOR state,
+    the observation and terminal flag of a state in that state); LeraxToGymnaxEnv is one Gym-style step / reset of the adapted
+    environment with the two flags folded into `done`. The space conversions pass low / high / shape / n through under their own names."""
+    P = s.prog
+    self_ = ("param", "self")
+    b = s.builder(inline=set())
+    nz = Normalizer(b)
+    bind = {"self": self_, "state": ("param", "state"), "next_state": ("param", "next_state"), "action": ("param", "action"), "key": ("param", "key"),
+            "params": ("param", "params")}
+    G = "GymnaxToLeraxEnv"
+
+    def eqn(cls, meth, got, want_src, what, key, nf=""):
+        want = s.ref(b, want_src, bind)
+        s.ob(rule, f"{cls}.{meth}", nz.canon(got) == nz.canon(want), what, s.loc(cls, meth), key=key, detail=f"{show(got, maxlen=160)}  (wanted {want_src})", necessary_for=nf or
+             "the adapter reproduces the trajectory of the environment it adapts")
+
+    # --- gymnax -> lerax
+    p = one(s.paths(b, G, "initial"), f"{G}.initial")
+    f = fields(p.ret) if isinstance(p.ret, tuple) and p.ret and p.ret[0] == "record" else {}
+    s.ob(rule, f"{G}.initial", isinstance(p.ret, tuple) and p.ret[0] == "record" and p.ret[1].endswith("GymnaxEnvState"), "initial returns a GymnaxEnvState", s.loc(G, "initial"),
+         key="initial-shape", detail=show(p.ret, maxlen=200))
+    R = "self.env.reset_env(key, self.params)"
+    eqn(G, "initial", f.get("observation", NONE), f"{R}[0]", "the cached observation is gymnax's reset observation", "initial-observation")
+    es = f.get("env_state", NONE)
+    r1 = s.ref(b, f"{R}[1]", bind)
+    s.ob(rule, f"{G}.initial", r1 in set(walk(es)) and len([c for c in walk(p.ret) if isinstance(c, tuple) and c and c[0] == "call" and c[1] == ("attr", ("attr", self_, "env"), "reset_env")]) == 1,
+         "the cached gymnax state is that of the same single reset_env call", s.loc(G, "initial"), key="initial-env-state", detail=show(es, maxlen=160))
+    eqn(G, "initial", f.get("reward", NONE), "0.0", "the initial cached reward is 0", "initial-reward")
+    eqn(G, "initial", f.get("terminal", NONE), "False", "the initial state is not terminal", "initial-terminal")
+    p = one(s.paths(b, G, "transition"), f"{G}.transition")
+    f = fields(p.ret) if isinstance(p.ret, tuple) and p.ret and p.ret[0] == "record" else {}
+    S = "self.env.step_env(key, state.env_state, action, self.params)"
+    for fld, i in (("observation", 0), ("env_state", 1), ("reward", 2), ("terminal", 3)):
+        eqn(G, "transition", f.get(fld, NONE), f"{S}[{i}]", f"the successor caches element {i} of ONE step_env(key, state.env_state, action, params) as `{fld}`", f"transition-{fld}")
+    for meth, want, what in (("observation", "state.observation", "the observation of a state is the one cached in that state"),
+                             ("reward", "next_state.reward", "the reward of a transition is the one cached in its SUCCESSOR state"),
+                             ("terminal", "state.terminal", "the terminal flag of a state is the one cached in that state"),
+                             ("truncate", "False", "gymnax has no truncation: never truncated"),
+                             ("transition_info", "next_state.transition_info", "the info of a transition is the one cached in its successor state")):
+        p = one(s.paths(b, G, meth), f"{G}.{meth}")
+        eqn(G, meth, p.ret, want, what, f"cached-{meth}")
+    # --- lerax -> gymnax
+    L = "LeraxToGymnaxEnv"
+    p = one(s.paths(b, L, "step_env"), f"{L}.step_env")
+    T = "self.env.step(state.env_state, jnp.asarray(action), key=key)"
+    r = p.ret
+    ok5 = isinstance(r, tuple) and r and r[0] == "tuple" and len(r[1]) == 5
+    s.ob(rule, f"{L}.step_env", ok5, "step_env returns (obs, state, reward, done, info)", s.loc(L, "step_env"), key="step-env-shape", detail=show(r, maxlen=200))
+    if ok5:
+        eqn(L, "step_env", r[1][0], f"{T}[1]", "the observation is that of ONE Gym-style step of the adapted environment", "step-env-observation")
+        eqn(L, "step_env", r[1][2], f"{T}[2]", "the reward is that step's reward", "step-env-reward")
+        eqn(L, "step_env", r[1][3], f"{T}[3] | {T}[4]", "done == terminal | truncated of that step", "step-env-done")
+        eqn(L, "step_env", r[1][4], f"{T}[5]", "the info is that step's info", "step-env-info")
+        st = fields(r[1][1]) if isinstance(r[1][1], tuple) and r[1][1] and r[1][1][0] in ("record", "call") else {}
+        eqn(L, "step_env", st.get("env_state", st.get("arg:env_state", NONE)), f"{T}[0]", "the carried state is that step's successor state", "step-env-state")
+        eqn(L, "step_env", st.get("time", st.get("arg:time", NONE)), "state.time + 1", "the step counter advances by one", "step-env-time")
+    p = one(s.paths(b, L, "reset_env"), f"{L}.reset_env")
+    r = p.ret
+    ok2 = isinstance(r, tuple) and r and r[0] == "tuple" and len(r[1]) == 2
+    s.ob(rule, f"{L}.reset_env", ok2, "reset_env returns (obs, state)", s.loc(L, "reset_env"), key="reset-env-shape", detail=show(r, maxlen=200))
+    if ok2:
+        st = fields(r[1][1]) if isinstance(r[1][1], tuple) and r[1][1] and r[1][1][0] in ("record", "call") else {}
+        E = st.get("env_state", st.get("arg:env_state", NONE))
+        inits = [c for c in walk(r) if isinstance(c, tuple) and c and c[0] == "call" and c[1] == ("attr", ("attr", self_, "env"), "initial")]
+        s.ob(rule, f"{L}.reset_env", len(inits) == 1 and E == inits[0], "the carried state is ONE self.env.initial(key=...)", s.loc(L, "reset_env"), key="reset-env-state", detail=show(E, maxlen=160))
+        obs = r[1][0]
+        oko = isinstance(obs, tuple) and obs and obs[0] == "call" and obs[1] == ("attr", ("attr", self_, "env"), "observation") and len(obs[2]) == 1 and obs[2][0] == E
+        s.ob(rule, f"{L}.reset_env", oko, "the observation is self.env.observation of that very state", s.loc(L, "reset_env"), key="reset-env-observation", detail=show(obs, maxlen=160))
+        eqn(L, "reset_env", st.get("time", st.get("arg:time", NONE)), "0", "the step counter starts at 0", "reset-env-time")
+    # --- space conversions: parameters pass through under their own names
+    for fname, need in (("gymnax_space_to_lerax_space", {"Discrete": ["n"], "Box": ["low", "high", "shape"]}), ("lerax_to_gymnax_space", {"Discrete": ["n"], "Box": ["low", "high", "shape"]})):
+        m, fn = s.function("lerax.compatibility.gymnax", fname)
+        loc = P.loc(m, fn)
+        space = ("param", "space")
+        seen = set()
+        for p in s.fpaths(b, "lerax.compatibility.gymnax", fname):
+            if p.raised is not None:
+                continue
+            trues = [t for t, v in p.conds if v and isinstance(t, tuple) and t[0] == "call" and t[1] == ("global", "isinstance")]
+            if len(trues) != 1:
+                continue
+            k_in = trues[0][2][1][1].split(".")[-1] if isinstance(trues[0][2][1], tuple) and trues[0][2][1][0] == "global" else "?"
+            r = p.ret
+            k_out = (r[1] if r[0] == "record" else (r[1][1] if isinstance(r[1], tuple) and r[1][0] == "global" else "?")).split(".")[-1] if isinstance(r, tuple) and r and r[0] in ("record", "call") else "?"
+            seen.add(k_in)
+            s.ob(rule, f"{fname}[{k_in}]", k_in == k_out, f"{k_in} maps to {k_in}", loc, key="kind-mapping", detail=f"{k_in} -> {k_out}")
+            fl = fields(r) if r[0] == "record" else dict([(k_, v) for k_, v in r[3] if k_] + [(need.get(k_in, [None])[i] if i < len(need.get(k_in, [])) else f"#{i}", a) for i, a in enumerate(r[2])])
+            for prm in need.get(k_in, []):
+                v = fl.get("arg:" + prm, fl.get(prm))
+                others = {("attr", space, o) for o in ("low", "high", "shape", "n") if o != prm}
+                nodes = set(walk(v)) if v is not None else set()
+                s.ob(rule, f"{fname}[{k_in}].{prm}", v is not None and ("attr", space, prm) in nodes and not (nodes & others), f"`{prm}` is built from space.{prm} and from no other parameter", loc,
+                     key=f"param-{prm}", detail=show(v if v is not None else NONE, maxlen=120), necessary_for="the adapted environment's spaces are the spaces of the environment it adapts")
+        s.ob(rule, fname, {"Discrete", "Box", "Dict", "Tuple"} <= seen, "Discrete, Box, Dict and Tuple are converted", loc, key="kinds-handled", detail=str(sorted(seen)))
+    s.floor(rule, 30)
 
 
 RESCALE_REF = """
